@@ -1095,6 +1095,15 @@ class PlainQuantity(Generic[MagnitudeT], PrettyIPython, SharedRegistryObject):
         are taken to root units in autoconvert mode and refused otherwise, like for
         true division."""
         operands = [self] + ([other] if isinstance(other, PlainQuantity) else [])
+        if (
+            len(operands) == 2
+            and self._check(other)
+            and self.dimensionality != other.dimensionality
+        ):
+            # (an active context must not make the operands commensurable, as for + and -)
+            raise DimensionalityError(
+                self._units, other._units, self.dimensionality, other.dimensionality
+            )
         if all(op._is_multiplicative for op in operands):
             return self, other
         if not self._REGISTRY.autoconvert_offset_to_baseunit:
